@@ -228,6 +228,7 @@ func genC04() {
 		g.def("index_cache_ctx_reads", "bool * bool", "("+coqBool(chk)+", "+coqBool(keys)+")", "verificationContext: (consults shouldCheckSignatureForIndex, reads the contents of the configured keys)")
 	}
 	g.write()
+	genC04Shapes()
 }
 
 func coqBool(b bool) string {
